@@ -558,6 +558,7 @@ class BaseParser:
     ):
         origin = data
         lookup_keys = {}
+        conflicts = {}
         if self.case_insensitive_names:
             _data = {}
             origin = {}
@@ -567,7 +568,13 @@ class BaseParser:
                     lookup_keys[k] = k.lower()
                 else:
                     lookup_keys[k] = k
-                _data[lookup_keys[k]] = v
+                if lookup_keys[k] in _data:
+                    # the same key in another letter case is one more alias of the field:
+                    # the first one is used, a different value is an alias conflict
+                    if self._alias_conflict(_data[lookup_keys[k]], v):
+                        conflicts.setdefault(lookup_keys[k], v)
+                else:
+                    _data[lookup_keys[k]] = v
                 origin[k] = v
             data = _data
 
@@ -594,10 +601,12 @@ class BaseParser:
                     if alias in data:
                         if unprovided(value):
                             value = data[alias]
-                        else:
-                            if self._alias_conflict(data[alias], value):
-                                context.handle_error(exc.AliasConflictError(item=name, value=data[alias]))
-                                break
+                        elif self._alias_conflict(data[alias], value):
+                            context.handle_error(exc.AliasConflictError(item=name, value=data[alias]))
+                            break
+                        if alias in conflicts:
+                            context.handle_error(exc.AliasConflictError(item=name, value=conflicts[alias]))
+                            break
 
             if unprovided(value):
                 unprovided_fields.add(name)
